@@ -56,12 +56,22 @@ func (sa SessionBasedAuthorizer) Handle(response tq.Response, request tq.Request
 		case tq.AuthorStatusPassRepl:
 			stringyHandleAuthorizeAcceptPassReplace.Inc()
 		}
-		response.Reply(
+		if _, err := response.Reply(
 			tq.NewAuthorReply(
 				tq.SetAuthorReplyStatus(status),
 				tq.SetAuthorReplyArgs(args...),
 			),
-		)
+		); err != nil {
+			// a configured value that does not make a valid argument (e.g. an empty name with an empty value)
+			// cannot be encoded; the client must still get an answer
+			sa.Errorf(request.Context, "unable to send the authorization reply for user [%v]; %v", sa.user.Name, err)
+			response.Reply(
+				tq.NewAuthorReply(
+					tq.SetAuthorReplyStatus(tq.AuthorStatusError),
+					tq.SetAuthorReplyServerMsg("unable to encode authorization reply"),
+				),
+			)
+		}
 		return
 	}
 	sa.Debugf(request.Context, "user [%v] failed session based authorization", sa.user.Name)
